@@ -212,6 +212,28 @@ def register_dump(R):
                              'ensures_on_raise': [('C18.unquoted-mode-restored-when-writing-fails', lambda c: c.post.get('_unquoted', c.ref('self')) == c.pre.get('_unquoted', c.ref('self')))]},
                        note='scalar quoting mode of the dumper around one node'))
 
+    # PathNode.ayns.value: what a dump writes for a !path node - components, reference point and, whenever the node knows it, the
+    # source file (every reference point relative to the file - file, parent, parent(n) - is meaningless without it after a re-parse)
+    PN = 'awesomeyaml/nodes/path.py::'
+    L_ = 'awesomeyaml/nodes/list.py::'
+    for key in (L_ + 'ConfigList._get_value', 'awesomeyaml/nodes/composed.py::ComposedNode._get_value'):
+        if not any(cc.name == 'abstract-list' for cc in R.get(key)):
+            R.add(Contract(key, [P.node('self', 'ComposedNode')], name='abstract-list', assume_only=True, pure=True, result=P.list('result'),
+                           props=('C18',), opts={'callee': False}, note='the components as a list: not interpreted here'))
+
+    def pv_ens(c):
+        s = c.ref('self')
+        m = c.post.m(r_of(c.rt))
+        sf = c.pre.get('_source_file', s)
+        return [('C18.path-node-saves-its-reference-point', z3.And(m.has(sym.mk_str('ref_point')), m.get(sym.mk_str('ref_point')) == c.pre.get('ref_point', s))),
+                ('C18.path-node-saves-its-source-file-whenever-it-knows-it', z3.Implies(z3.Not(is_none(sf)), z3.And(m.has(sym.mk_str('source_file')), m.get(sym.mk_str('source_file')) == sf))),
+                ('C18.path-node-saves-its-components', m.has(sym.mk_str('values')))]
+    R.add(Contract(PN + 'PathNode.ayns.value', [P.node('self', 'PathNode', exact=True)], pure=True, ensures=[('value', pv_ens)], result=P.map('result', fresh=True), props=('C18',),
+                   opts={'no_search': True, 'verify_only': True, 'skip_kinds': ('safety',), 'no_frame': True,
+                         'use': {L_ + 'ConfigList._get_value': 'abstract-list', 'awesomeyaml/nodes/composed.py::ComposedNode._get_value': 'abstract-list',
+                                 'awesomeyaml/nodes/node.py::ConfigNode.ayns.source_file': 'default'}},
+                   note='data written for a !path node'))
+
     # _decode_metadata: special names become constructor keywords, the rest stays user metadata
     SPECIAL = ['idx', 'priority', 'delete', 'allow_new', 'source_file', 'safe']
     Unpickled = z3.Function('Unpickled', z3.StringSort(), sym.I)
